@@ -351,6 +351,29 @@ example : ∃ r x, WF toyHash r ∧ decryptSubject toyHash toyAead [1] r = .ok x
   have hw := (encryptSubject_inv _ _ _ _ _ _ nd_inv toyHash_valid hr).1
   exact ⟨r, nd, hw, hd, decryptSubject_digest _ _ _ _ _ hw hd⟩
 
+/-- **decrypting the subject opens the subject and nothing else**: for a node, the assertion
+elements of the result are the receiver's own, element for element - one that is itself encrypted
+(under this very key or another), compressed or elided comes back exactly as it stood -/
+theorem decryptSubject_keeps_assertions (k : Bytes) (r x : Env) (hc : Canon r) (hn : r.isNode = true)
+    (hr : decryptSubject h A k r = .ok x) : x.assertions = r.assertions := by
+  obtain ⟨m, d0, pt, dd, rs, _, _, _, _, _, hcase⟩ := Obs.decryptSubject_ok_inv h A hr
+  rcases hcase with ⟨rfl, rfl⟩ | ⟨as, d, rfl, hnn, _⟩
+  · simp [Env.isNode] at hn
+  · simp only [Canon] at hc
+    rw [Obs.newNodeUnchecked_ne h hc.2.2.1] at hnn
+    injection hnn with hnn
+    subst hnn
+    simp [mkNode, Env.assertions, sortByDigest_of_asc hc.2.2.2.1]
+
+example : ∃ r x, Canon r ∧ r.isNode = true ∧ decryptSubject toyHash toyAead [1] r = .ok x ∧
+    x.assertions = r.assertions := by
+  obtain ⟨r, hr⟩ := (encryptSubject_ok_iff toyHash toyAead [1] [2] nd nd_inv toyHash_valid).mpr ⟨rfl, rfl⟩
+  have hd := decryptSubject_encryptSubject _ _ toyAead_laws _ _ _ _ nd_inv toyHash_valid lf_rt hr
+  have hinv := encryptSubject_inv _ _ _ _ _ _ nd_inv toyHash_valid hr
+  have hnode : r.isNode = true := by
+    rw [(encryptSubject_shape _ _ _ _ _ _ nd_inv toyHash_valid hr).2.2.1]; rfl
+  exact ⟨r, nd, hinv.2, hnode, hd, decryptSubject_keeps_assertions _ _ _ _ _ hinv.2 hnode hd⟩
+
 /-- `decrypt_subject` of a subject that is not encrypted -/
 theorem decryptSubject_not_encrypted (k : Bytes) (r : Env) (hs : r.subject.isEncrypted = false) :
     decryptSubject h A k r = .err "NotEncrypted" :=
